@@ -164,13 +164,17 @@ fn finish_r(t: Totals, prop: &str, tier: Tier, bounds: Value, witnesses: Vec<&'s
 }
 
 pub fn all_scripts(max_len: usize, peer: u8) -> Vec<Vec<Step>> {
-    let alpha = [Step::Decline, Step::Srd(peer), Step::Sdn(127), Step::Status(peer)];
+    all_scripts_over(&[Step::Decline, Step::Srd(peer), Step::Sdn(127), Step::Status(peer)], max_len)
+}
+
+pub fn all_scripts_over(alpha: &[Step], max_len: usize) -> Vec<Vec<Step>> {
+    let alpha: Vec<Step> = alpha.to_vec();
     let mut out: Vec<Vec<Step>> = vec![vec![]];
     let mut cur: Vec<Vec<Step>> = vec![vec![]];
     for _ in 0..max_len {
         let mut next = vec![];
         for s in &cur {
-            for a in alpha {
+            for a in alpha.iter().cloned() {
                 let mut n = s.clone();
                 n.push(a);
                 next.push(n);
@@ -280,6 +284,32 @@ pub fn run_c15(tier: Tier) -> ! {
                                 cfgs.push((format!("4apps ring{:?}", members0), cfg, depth - 2, wcap, 400_000));
                             }
                         }
+                    }
+                }
+            }
+            // unacknowledged requests to ONE station (not the broadcast address): no reply and no
+            // time-out may come back for them either (found by a seeded change); one application with
+            // scripts up to length 2 (thorough 3), two applications up to length 1 (thorough 2)
+            {
+                let alpha_u = [Step::Decline, Step::Sdn(peer), Step::Srd(peer), Step::Sdn(if members0.is_empty() { 1 } else { members0[0] })];
+                let su = all_scripts_over(&alpha_u, tier.pick(2, 3));
+                for s in su.iter().filter(|s| s.iter().any(|x| matches!(x, Step::Sdn(_)))) {
+                    for &ttr in &ttrs {
+                        if ttr.is_some() && tier == Tier::Quick && !members0.is_empty() {
+                            continue;
+                        }
+                        let cfg = RCfg { ts, hsa: 6, gap_factor: 10, slot_bits: 100, ttr, period_div, members0: members0.clone(), scripts: vec![s.clone()], multi: true, mon: RMon::C15, max_visits: visits, join_budget: 0 };
+                        cfgs.push((format!("1app unicast-sdn {:?} ring{:?} ttr{:?} div{period_div}", s, members0, ttr), cfg, depth, wcap, 400_000));
+                    }
+                }
+                let sp = all_scripts_over(&alpha_u, tier.pick(1, 2));
+                for a in &sp {
+                    for b in &sp {
+                        if !a.iter().chain(b.iter()).any(|x| matches!(x, Step::Sdn(_))) {
+                            continue;
+                        }
+                        let cfg = RCfg { ts, hsa: 6, gap_factor: 10, slot_bits: 100, ttr: None, period_div, members0: members0.clone(), scripts: vec![a.clone(), b.clone()], multi: true, mon: RMon::C15, max_visits: visits, join_budget: 0 };
+                        cfgs.push((format!("2apps unicast-sdn {:?}/{:?} ring{:?} div{period_div}", a, b, members0), cfg, depth, wcap, 400_000));
                     }
                 }
             }
